@@ -810,6 +810,9 @@ func c19RequiredDependsOnRuleOnly(c *Ctx) {
 		}
 		for _, u := range o.Used {
 			k := eraseIters(u.Key)
+			if strings.Contains(k, "GetRequired") {
+				reads = true
+			}
 			for _, w := range []string{".Oneof", "HasOptionalKeyword", "HasPresence", "Kind()", "IsList()", "IsMap()", "Cardinality", "Syntax"} {
 				if strings.Contains(k, w) && !seen[k] {
 					seen[k] = true
